@@ -468,6 +468,60 @@ func checkC10(c *Check, p *Program) {
 		})
 	}
 	c.Decide(doneDef, "C10.K3", FuncName(t.serve)+" defers wait.Done()", p.Pos(t.serve.Pos()), "deferred in the entry block", "serve does not defer wait.Done() at entry: Close can block for ever in Wait")
+	// deferred calls run in reverse order: the completion signal must be registered before every deferred close of a
+	// channel the application or a sender observes, so that Close's Wait returns only after those channels are closed
+	var doneDefer *ssa.Defer
+	var closeDefers []*ssa.Defer
+	litOrderBad := false
+	instrsOf(t.serve, func(in ssa.Instruction) {
+		d, ok := in.(*ssa.Defer)
+		if !ok {
+			return
+		}
+		if funcIs(calleeObj(d), "sync", "WaitGroup", "Done") && fieldOfAddr(callRecv(d)) == a.wait {
+			doneDefer = d
+		}
+		if builtinName(d) == "close" {
+			if f := chanField(d.Common().Args[0]); f == a.inbound || f == a.ack {
+				closeDefers = append(closeDefers, d)
+			}
+		}
+		// a deferred literal that does one of the two
+		if mc, isMC := d.Common().Value.(*ssa.MakeClosure); isMC {
+			if lit, isFn := mc.Fn.(*ssa.Function); isFn {
+				var doneIn ssa.Instruction
+				var closesIn []ssa.Instruction
+				instrsOf(lit, func(y ssa.Instruction) {
+					if ci, ok := y.(ssa.CallInstruction); ok {
+						if funcIs(calleeObj(ci), "sync", "WaitGroup", "Done") {
+							doneDefer, doneIn = d, y
+						}
+						if builtinName(ci) == "close" {
+							closeDefers = append(closeDefers, d)
+							closesIn = append(closesIn, y)
+						}
+					}
+				})
+				// both in one literal: the closes come first inside it
+				if doneIn != nil {
+					for _, cl := range closesIn {
+						if !instrDominates(cl, doneIn) {
+							litOrderBad = true
+						}
+					}
+				}
+			}
+		}
+	})
+	if doneDefer != nil {
+		okOrder := len(closeDefers) >= 1 && !litOrderBad
+		for _, cd := range closeDefers {
+			if cd != doneDefer && !instrDominates(doneDefer, cd) {
+				okOrder = false
+			}
+		}
+		c.Decide(okOrder, "C10.K3", FuncName(t.serve)+" signals completion after closing its channels", p.InstrPos(doneDefer), "wait.Done() is deferred before the deferred closes, so it runs after them", "wait.Done() is deferred after a deferred close of Inbound or the acknowledgement channel and therefore runs before it: Close can return while Inbound is still open")
+	}
 
 	// ---- K4 single closer
 	closedFields := map[*types.Var]bool{}
